@@ -1056,8 +1056,10 @@ def rocc(repo: Repo, chk: Check) -> None:
                     for gen in comp.generators:
                         for cnd in gen.ifs:
                             for at in norm.atoms(cnd, True):
-                                m_ = norm.match(T("$e not in $d"), at, {"d": dname})
-                                if m_ is not None and ast.dump(norm.canon(m_["e"])) == ast.dump(norm.canon(comp.elt)):
+                                m_ = norm.match(T("$e not in $d"), at)
+                                # the dictionary by its name, or as the expression it was bound to when the collection was built
+                                names_ = {dname, *[ast.unparse(norm.primary(d_)) for d_ in fl.alldefs.get(dname, []) if not isinstance(d_, ast.Call) or callee_name(d_) != "__mut_store__"]}
+                                if m_ is not None and ast.unparse(norm.primary(m_["d"])) in names_ and ast.dump(norm.canon(m_["e"])) == ast.dump(norm.canon(comp.elt)):
                                     guard = True
         chk.result(k1 == k2 and own and guard, "C04.rocc-pairs", f"{key}:fill:{k1}", s.where(),
                    f"{dname}[{k1}] is filled from the traced in-state under the same key, only when the op does not set it",
